@@ -66,7 +66,7 @@ def run(ctx, repo):
     rnd = random.Random(206 + ctx.seed)
     F = Folders(repo)
     where = 'skoolkit/disassembler.py, skoolkit/z80.py'
-    configs = [(False, False, 'n')] if not thorough else [(False, False, 'n'), (True, False, 'n'), (True, True, 'n'), (False, False, 'h'), (False, False, 'd'), (False, True, 'b'), (False, False, 'c'), (False, False, 'm')]
+    configs = [(False, False, 'n')] if not thorough else [(False, False, 'n'), (True, False, 'n'), (True, True, 'n'), (False, False, 'h'), (False, False, 'd'), (False, True, 'b'), (False, False, 'c'), (False, False, 'm'), (False, False, 'mn'), (False, False, 'nm'), (True, False, 'mm'), (False, False, 'bd')]
     n_samples = 3 if thorough else 1
     reported = 0
     seen_constructs = set()
@@ -79,7 +79,7 @@ def run(ctx, repo):
             name = ''.join('%02X' % x if x is not None else '..' for x in pre) + '%02X' % b
             bad = None
             done = 0
-            cfgs = configs if thorough or fam != 'ops' else configs + [(False, False, 'm')]
+            cfgs = configs if thorough or fam != 'ops' else configs + [(False, False, 'm'), (False, False, 'mn'), (False, False, 'nm')]
             for hexa, lower, base in cfgs:
                 for k in range(n_samples):
                     address = rnd.choice((32768, 40000, 200, 65000))
